@@ -14,7 +14,7 @@ theorem pairQuiescent_poll (j : PairJ) (x : Option (Bool × Bool)) :
 
 theorem ev_cancel {V : Variant} {v1 : Bool} {sS sR : List Bytes} {s : State} {j : PairJ}
     (hR : R' V v1 sS sR s j) (a : Nat) (hA' : All V (stepLive V s (.cancel a)).1) :
-    R' V v1 sS sR (stepLive V s (.cancel a)).1 (pairStep j (.cancel a) (stepLive V s (.cancel a)).2) := by
+    R' V v1 sS sR (stepLive V s (.cancel a)).1 (pairStepOld j (.cancel a) (stepLive V s (.cancel a)).2) := by
   simp only [stepLive] at hA' ⊢
   exact step_dones hR hA' (fun _ => rfl) rfl rfl (failParked_outs s a _)
     (failParked_R hR.1 a _ (by simp [Err.ecanceled]) (by simp [Err.ecanceled, Err.eproto]))
@@ -22,13 +22,13 @@ theorem ev_cancel {V : Variant} {v1 : Bool} {sS sR : List Bytes} {s : State} {j 
 theorem ev_abort {V : Variant} {v1 : Bool} {sS sR : List Bytes} {s : State} {j : PairJ}
     (hR : R' V v1 sS sR s j) (a rv : Nat) (h0 : rv ≠ 0) (h1 : rv ≠ Err.eproto)
     (hA' : All V (stepLive V s (.abort a rv)).1) :
-    R' V v1 sS sR (stepLive V s (.abort a rv)).1 (pairStep j (.abort a rv) (stepLive V s (.abort a rv)).2) := by
+    R' V v1 sS sR (stepLive V s (.abort a rv)).1 (pairStepOld j (.abort a rv) (stepLive V s (.abort a rv)).2) := by
   simp only [stepLive] at hA' ⊢
   exact step_dones hR hA' (fun _ => rfl) rfl rfl (failParked_outs s a _) (failParked_R hR.1 a _ h0 h1)
 
 theorem ev_advance {V : Variant} {v1 : Bool} {sS sR : List Bytes} {s : State} {j : PairJ}
     (hR : R' V v1 sS sR s j) (ms : Nat) (hA' : All V (stepLive V s (.advance ms)).1) :
-    R' V v1 sS sR (stepLive V s (.advance ms)).1 (pairStep j (.advance ms) (stepLive V s (.advance ms)).2) := by
+    R' V v1 sS sR (stepLive V s (.advance ms)).1 (pairStepOld j (.advance ms) (stepLive V s (.advance ms)).2) := by
   simp only [stepLive, expire] at hA' ⊢
   obtain ⟨h1, h2⟩ := failMany_R (V := V) (v1 := v1) (sS := sS) (sR := sR) Err.etimedout (by simp [Err.etimedout])
     (by simp [Err.etimedout, Err.eproto]) (dueAios { s with now := s.now + ms })
@@ -39,12 +39,12 @@ theorem ev_advance {V : Variant} {v1 : Bool} {sS sR : List Bytes} {s : State} {j
 theorem ev_neutral {V : Variant} {v1 : Bool} {sS sR : List Bytes} {s : State} {j : PairJ} {ev : Ev} {o : Out}
     (hA : All V s) (hR : R' V v1 sS sR s j) (hpre : ∀ (j0 : PairJ) outs, pairPre false j0 ev outs = (j0, .none))
     (hev : isPipeAdd ev = false) (hp : isPoll ev = false) (ho : neutral o = true) :
-    R' V v1 sS sR s (pairStep j ev [o]) :=
+    R' V v1 sS sR s (pairStepOld j ev [o]) :=
   step_plain hR hA rfl (fun j0 => hpre j0 _) hev hp (by simpa using ho)
 
 theorem ev_poll {V : Variant} {v1 : Bool} {sS sR : List Bytes} {s : State} {j : PairJ}
     (hA : All V s) (hR : R' V v1 sS sR s j) :
-    R' V v1 sS sR s (pairStep j .poll [.poll (some s.readable) (some s.writable)]) := by
+    R' V v1 sS sR s (pairStepOld j .poll [.poll (some s.readable) (some s.writable)]) := by
   rw [pairStep_eq (j := j) hR.1.err (by simp [notExecuted])]
   have hpre : pairPre false { j with lastPoll := none } .poll [.poll (some s.readable) (some s.writable)] =
       ({ j with lastPoll := none }, .none) := rfl
@@ -65,7 +65,7 @@ theorem excuse_key (u : List Acc) : (excuseAll u).map key = u.map key := by
 theorem ev_setSendBuf {V : Variant} {v1 : Bool} {sS sR : List Bytes} {s : State} {j : PairJ}
     (hA : All V s) (hR : R' V v1 sS sR s j) (v : Int)
     (hA' : All V (setSendBuf s v.toNat)) :
-    R' V v1 sS sR (setSendBuf s v.toNat) (pairStep j (.setopt none "send-buffer" "int" v) [.rv 0]) := by
+    R' V v1 sS sR (setSendBuf s v.toNat) (pairStepOld j (.setopt none "send-buffer" "int" v) [.rv 0]) := by
   have hR0 := hR.1
   have hsc : j.scap = s.wmqCap := hR0.scap
   by_cases hlt : v.toNat < j.scap
@@ -95,7 +95,7 @@ theorem ev_setSendBuf {V : Variant} {v1 : Bool} {sS sR : List Bytes} {s : State}
 theorem ev_setRecvBuf {V : Variant} {v1 : Bool} {sS sR : List Bytes} {s : State} {j : PairJ}
     (hA : All V s) (hR : R' V v1 sS sR s j) (v : Int)
     (hA' : All V (setRecvBuf s v.toNat)) :
-    R' V v1 sS sR (setRecvBuf s v.toNat) (pairStep j (.setopt none "recv-buffer" "int" v) [.rv 0]) := by
+    R' V v1 sS sR (setRecvBuf s v.toNat) (pairStepOld j (.setopt none "recv-buffer" "int" v) [.rv 0]) := by
   have hR0 := hR.1
   have hsc : j.rcap = s.rmqCap := hR0.rcap
   by_cases hlt : v.toNat < j.rcap
@@ -129,7 +129,7 @@ theorem ev_setRecvBuf {V : Variant} {v1 : Bool} {sS sR : List Bytes} {s : State}
 theorem ev_setTtl {V : Variant} {v1 : Bool} {sS sR : List Bytes} {s : State} {j : PairJ}
     (hA : All V s) (hR : R' V v1 sS sR s j) (v : Int)
     (hA' : All V { s with ttl := v.toNat }) :
-    R' V v1 sS sR { s with ttl := v.toNat } (pairStep j (.setopt none "ttl-max" "int" v) [.rv 0]) := by
+    R' V v1 sS sR { s with ttl := v.toNat } (pairStepOld j (.setopt none "ttl-max" "int" v) [.rv 0]) := by
   have hR0 := hR.1
   have hpre : pairPre false { j with lastPoll := none } (.setopt none "ttl-max" "int" v) [.rv 0] =
       ({ j with lastPoll := none, ttl := v.toNat }, .none) := by
